@@ -7,7 +7,8 @@ PROJ = "sched"
 MANIFEST = dict(
     engine="sched",
     technique="Coq proof (exact case analysis of fetchAndReschedule over any contract-abiding queue and any triggers; chain invariant over "
-              "all label sequences) + step correspondence through the extracted model + trigger-log oracles on free-running schedulers",
+              "all label sequences) + step correspondence through the extracted model + trigger-log oracles on free-running schedulers "
+              "+ quartz/trigger.go's SimpleTrigger / RunOnceTrigger translated from the source and proved equal to the model's instances",
     text="Machine-checked Coq theorems: the four outcomes of one fetchAndReschedule (suspended: parked at MaxInt64 without a trigger call; "
          "more than OutdatedThreshold late: not executed, offered to MisfiredChan, trigger asked with the clock; not due: requeued unchanged; "
          "otherwise executed and the trigger asked with the scheduled fire time), no drift along any run without re-scheduling (each on-time "
